@@ -181,7 +181,55 @@ def gen_pre(rng, layers, exact):
     return pre
 
 
-def gen_input(rng, exact, allow_maxpool, affine_only=False):
+def gen_directed(rng, exact):
+    """Flatten -> Linear -> activation -> Linear (-> activation -> Linear) with one directed hidden unit."""
+    A = rng.choice([4, 4, 3, 2]); L = rng.randint(4, 9)
+    h = rng.randint(2, 5); nout = rng.randint(1, 2)
+    if exact:
+        kind = rng.choice(['kink', 'kink', 'kink6', 'shrink'])
+        name = {'kink': rng.choice(['ReLU', 'ReLU6']), 'kink6': 'ReLU6', 'shrink': 'Softshrink'}[kind]
+        dr = {'kind': kind, 'unit': rng.randrange(h)}
+    else:
+        name = rng.choice(['GELU', 'SiLU', 'Mish'])
+        dr = {'kind': 'valley', 'unit': rng.randrange(h), 'act': name, 'depth': rng.choice([0.25, 0.5, 1.0, 1.5])}
+    layers = [{'t': 'flatten'}, {'t': 'linear', 'in': A * L, 'out': h, 'bias': True}, {'t': 'act', 'name': name}]
+    if rng.random() < 0.4:
+        h2 = rng.randint(1, 3)
+        layers += [{'t': 'linear', 'in': h, 'out': h2, 'bias': True},
+                   {'t': 'act', 'name': rng.choice(EXACT_ACTS if exact else SMOOTH_ACTS)}]
+        h = h2
+    layers.append({'t': 'linear', 'in': h, 'out': nout, 'bias': rng.random() < 0.8})
+    B, ns = rng.choice([1, 2]), rng.randint(1, 3)
+    return {'mode': 'exact' if exact else 'cosim', 'A': A, 'L': L, 'layers': layers, 'nout': nout,
+            'target': rng.randrange(nout), 'B': B, 'ns': ns, 'batch_size': rng.choice([1, 2, B * ns, 32]),
+            'refs': 'onehot', 'seed': rng.randrange(10 ** 9), 'directed': dr}
+
+
+def gen_user_hooks(rng, layers, backward_on_nonlinear):
+    """Harmless hooks the CALLER registered on modules of the model before the call: recording
+    forward hooks / forward pre-hooks (mostly on the registered non-linearities) and full backward
+    hooks.  A user backward hook on a registered non-linearity makes the current code skip the module
+    (open finding user_backward_hook): generated only once that finding is listed."""
+    nl = [i for i, ly in enumerate(layers) if ly['t'] in ('act', 'maxpool')]
+    other = [i for i, ly in enumerate(layers) if ly['t'] not in ('act', 'maxpool')]
+    hooks = []
+    for _ in range(rng.randint(1, 2)):
+        kind = rng.choice(['forward', 'forward', 'pre', 'pre', 'backward'])
+        if kind == 'backward' and not backward_on_nonlinear:
+            pool = other
+        else:
+            pool = nl if (nl and rng.random() < 0.8) else other
+        if pool:
+            hooks.append({'idx': rng.choice(pool), 'kind': kind})
+    return hooks
+
+
+BACKWARD_HOOK_TAG = 'user_backward_hook'
+
+
+def gen_input(rng, exact, allow_maxpool, affine_only=False, pid=None):
+    if not affine_only and rng.random() < 0.08:
+        return gen_directed(rng, exact)
     u = rng.random()
     many = u < 0.06                       # more than 20 references with n_shuffles left at its default
     extra = None
@@ -205,6 +253,11 @@ def gen_input(rng, exact, allow_maxpool, affine_only=False):
         inp['extra_ops'] = used_extra
     if rng.random() < 0.22 or used_extra and rng.random() < 0.5:
         inp['pre'] = gen_pre(rng, layers, exact)
+    if rng.random() < 0.15:
+        listed = any(e.get('tag') == BACKWARD_HOOK_TAG for e in C.load_known_findings(pid or PID))
+        hooks = gen_user_hooks(rng, layers, listed)
+        if hooks:
+            inp['user_hooks'] = hooks
     return inp
 
 
@@ -301,7 +354,58 @@ def build(inp):
                 row.append(ref)
             rows.append(torch.stack(row))
         refs = torch.stack(rows)
+    if inp.get('directed') and refs is not None:
+        apply_directed(model, X, refs, inp['directed'])
     return model, X, refs
+
+
+VALLEY = {'GELU': -0.7517915246, 'SiLU': -1.2784645428, 'Mish': -1.1924519727}   # arg-min of the activation
+
+
+def valley_pair(name, depth):
+    """(b, a): a = argmin - depth, b > argmin with act(b) = act(a) to float64 resolution (bisection)."""
+    f = make_act(name).double()
+
+    def val(t):
+        with torch.no_grad():
+            return float(f(torch.tensor([t], dtype=torch.float64))[0])
+    a = VALLEY[name] - depth
+    fa = val(a)
+    lo, hi = VALLEY[name], 0.0          # act increases from its minimum to act(0) = 0 > act(a)
+    for _ in range(200):
+        mid = 0.5 * (lo + hi)
+        if val(mid) < fa:
+            lo = mid
+        else:
+            hi = mid
+    return hi, a
+
+
+def apply_directed(model, X, refs, dr):
+    """Directed unit: hidden unit dr['unit'] of the first Linear gets, for the pair (example 0,
+    reference 0), pre-activations with a tiny OUTPUT difference and a large INPUT difference:
+    kink (2^-21, -1) for ReLU/ReLU6, kink6 (6 - 2^-21, 7) for ReLU6, shrink (0.5 + 2^-21, -0.25) for
+    Softshrink(0.5), valley: equal heights on both sides of the minimum of GELU/SiLU/Mish.  In scope of
+    the properties: their excluded band is about |delta_in| only.  All adjustments are dyadic for the
+    first three kinds, so exact mode stays exact."""
+    lin = next(m for m in model if isinstance(m, torch.nn.Linear))
+    x, r = X[0].reshape(-1), refs[0, 0].reshape(-1)
+    cand = [i for i in range(x.numel()) if r[i] == 1.0 and x[i] == 0.0]
+    if not cand or lin.bias is None:
+        return
+    i, u, e = cand[0], dr['unit'], 2.0 ** -21
+    if dr['kind'] == 'kink':
+        tx, tr = e, -1.0
+    elif dr['kind'] == 'kink6':
+        tx, tr = 6.0 - e, 7.0
+    elif dr['kind'] == 'shrink':
+        tx, tr = 0.5 + e, -0.25
+    else:
+        tx, tr = valley_pair(dr['act'], dr['depth'])
+    with torch.no_grad():
+        sx, sr = float(lin.weight[u] @ x), float(lin.weight[u] @ r)
+        lin.weight[u, i] += (tr - tx) - (sr - sx)
+        lin.bias[u] = tx - sx
 
 
 _CACHE = {}
@@ -404,6 +508,18 @@ def _analyse(inp):
     twin = copy.deepcopy(model)          # never touched by tangermeme
     B, ns, A, L = inp['B'], inp['ns'], inp['A'], inp['L']
     res = {'model': twin, 'X': X}
+    user = []                            # (module, dict name, handle, call counter)
+    for hk in inp.get('user_hooks', []):
+        mod, cnt = model[hk['idx']], [0]
+        if hk['kind'] == 'forward':
+            h = mod.register_forward_hook(lambda m, i, o, c=cnt: c.__setitem__(0, c[0] + 1))
+            user.append((mod, '_forward_hooks', h, cnt))
+        elif hk['kind'] == 'pre':
+            h = mod.register_forward_pre_hook(lambda m, i, c=cnt: c.__setitem__(0, c[0] + 1))
+            user.append((mod, '_forward_pre_hooks', h, cnt))
+        else:
+            h = mod.register_full_backward_hook(lambda m, gi, go, c=cnt: c.__setitem__(0, c[0] + 1))
+            user.append((mod, '_backward_hooks', h, cnt))
     for step in inp.get('pre', []):
         _run_pre(step, model, inp)
     # ---- implementation
@@ -424,8 +540,10 @@ def _analyse(inp):
               and tuple(att.shape) == (B, A, L) and tuple(used.shape) == (B, ns, A, L)
               and bool(torch.equal(X, X0)))
         finite = bool(torch.isfinite(raw).all() and torch.isfinite(hyp).all() and torch.isfinite(att).all())
-        why = 'shape or input mutated' if not ok else ('non-finite value returned' if not finite else None)
-        ok = ok and finite       # NaN / inf cannot satisfy any equation of the spec: reported as Err
+        kept = all(h.id in getattr(mod, dname) and cnt[0] > 0 for mod, dname, h, cnt in user)
+        why = 'shape or input mutated' if not ok else ('non-finite value returned' if not finite else (
+            None if kept else 'a hook of the caller was removed or never ran'))
+        ok = ok and finite and kept     # NaN / inf cannot satisfy any equation of the spec: reported as Err
         out = {'ok': bool(ok), 'warn': bool(w1 or w2 or w3),
                'mult': raw.double().reshape(B, raw.shape[1], A * L).tolist() if ok else None,
                'hyp': hyp.double().reshape(B, A * L).tolist() if ok else None,
@@ -642,6 +760,10 @@ def arch_key(inp):
         k.append('many')
     if inp.get('extra_ops'):
         k.append('extra')
+    if inp.get('user_hooks'):
+        k.append('hooks')
+    if inp.get('directed'):
+        k.append('directed-' + inp['directed']['kind'])
     return '+'.join(k)
 
 
@@ -655,12 +777,20 @@ def hist_key(inp, out):
     return '%s/%s/%s' % (inp['mode'], arch_key(inp), 'ok' if out.get('ok') else 'raise')
 
 
+def hook_tags(inp):
+    if any(hk['kind'] == 'backward' and inp['layers'][hk['idx']]['t'] in ('act', 'maxpool')
+           for hk in inp.get('user_hooks', [])):
+        return {BACKWARD_HOOK_TAG}
+    return set()
+
+
 def tags(inp, out):
     t = set()
     if any(ly['t'] == 'maxpool' and ly['s'] < ly['k'] for ly in inp['layers']):
         t.add('maxpool_overlap')
     if sum(1 for ly in inp['layers'] if ly['t'] == 'maxpool') >= 2:
         t.add('maxpool_stacked')
+    t |= hook_tags(inp)
     return t
 
 
@@ -671,6 +801,15 @@ def generate(tier, rng):
 
 
 def shrink(inp):
+    if inp.get('user_hooks'):
+        for i in range(len(inp['user_hooks'])):
+            rest = inp['user_hooks'][:i] + inp['user_hooks'][i + 1:]
+            c = dict(inp)
+            if rest:
+                c['user_hooks'] = rest
+            else:
+                del c['user_hooks']
+            yield c
     if inp.get('pre'):
         for i in range(len(inp['pre'])):
             rest = inp['pre'][:i] + inp['pre'][i + 1:]
@@ -693,8 +832,9 @@ def shrink(inp):
     if inp['refs'] == 'shuffle':
         yield dict(inp, refs='mutate')
     # drop a shape-preserving layer (activation, or a max-pool / conv that keeps the shape)
-    for i, ly in enumerate(inp['layers']):
-        if ly['t'] == 'act':
-            yield dict(inp, layers=inp['layers'][:i] + inp['layers'][i + 1:])
+    if not inp.get('user_hooks') and not inp.get('directed'):
+        for i, ly in enumerate(inp['layers']):
+            if ly['t'] == 'act':
+                yield dict(inp, layers=inp['layers'][:i] + inp['layers'][i + 1:])
     for s in (1, 2, 3):
         yield dict(inp, seed=inp['seed'] // (10 ** s))
